@@ -51,8 +51,9 @@ def parse_out(line):
     return [unhex(t) for t in line[3:].split(",") if t]
 
 
-# genuine defects found while building this check, not yet repaired in /repo: (key, witness ops). See known_findings.d/C10.json.
-KNOWN = [
+# genuine defects found while building this check, all repaired in /repo since (d0e1eed, 60d5965, 46f6f22, 7f8f7fd, 3a05169,
+# c9193f2): their failing inputs stay in the corpus as regression witnesses
+REGRESSION = [
     ("C10:esl_gam_logpdf:support-test-on-x", ["f fn=esl_gam_logpdf a=%s" % ",".join(dhex(v) for v in (-1.0, -5.0, 1.0, 2.0)),
                                                "f fn=esl_gam_logpdf a=%s" % ",".join(dhex(v) for v in (0.5, 2.0, 1.0, 2.0))]),
     ("C10:esl_gam_pdf:nan-at-mu-tau1", ["f fn=esl_gam_pdf a=%s" % ",".join(dhex(v) for v in (3.0, 3.0, 2.0, 1.0))]),
@@ -74,7 +75,8 @@ class C10(Prop):
         "exp_outside_support", "sample_is_inverse_of_deviate",
         "gumbel_cdf_monotone_0_to_1", "gumbel_textbook_laws", "gumbel_code_eq_textbook", "gumbel_code_surv_switches",
         "gumbel_code_invsurv", "wei_textbook_laws", "wei_code_eq_textbook", "wei_outside_support",
-        "gev_textbook_laws", "gev_code_eq_textbook", "gev_gumbel_branch_partial", "gev_outside_support")]
+        "gev_textbook_laws", "gev_code_eq_textbook", "gev_gumbel_branch_partial", "gev_outside_support",
+        "gam_laws_partial", "sxp_laws_partial", "normal_laws_partial", "hxp_cdf_add_surv_partial", "gam_sxp_outside_support")]
     claimed = True
     technique = ("Lean 4 proof about the C functions translated from the working tree on every run (clang-14 AST -> Lean, polymorphic "
                  "over a numeric class): real-analysis theorems at the R instance, the same definitions executed at Float bit-for-bit "
@@ -93,7 +95,6 @@ class C10(Prop):
     assumptions = ["L0: IEEE-754 evaluation of the translated real function is close to its real value - not proved; monitored",
                    "Real.log is total (log 0 = 0): every theorem through a log carries the guard that makes the C argument positive",
                    "eslINFINITY is an opaque real constant: branches returning +-inf are stated symbolically",
-                   "GEV for 1e-12 <= |alpha*y| << 1e-6: the code forms 1+alpha*y in binary64 and loses up to ~4 digits (L0 remark; the monitors allow exactly that band)",
                    "esl_exp_invcdf / esl_wei_invcdf / esl_gumbel_invsurv form 1-p in binary64: p is resolved to 2^-53 absolutely (monitors allow that)"]
     rule = ("case = one parameter tuple of one family: all x-functions on a grid of arguments (support edge, every branch threshold +-2 ulp, "
             "log-spaced tails, random draws), inverse functions on a p-grid (incl. eslSMALLX1 +-1 ulp), round trips, derivative triples, samples; "
@@ -122,7 +123,7 @@ class C10(Prop):
             if b == "unmodelled" and i < len(case["ops"]):
                 kind, kv, _ = parse_op(case["ops"][i])
                 fns = kv.get("fn", "").split(",")
-                if kind in ("mix", "mixsample") or not any(f in must for f in fns):
+                if (kind == "mix" and kv.get("fn") == "invcdf") or (kind in ("f", "f2") and not any(f in must for f in fns)):
                     continue
             if a != b:
                 return (i, a, b)
@@ -221,8 +222,6 @@ class C10(Prop):
         xs = self.x_points(fam, par, rng, n_grid, n_rand)
         for x in xs:
             for w in xn:
-                if fam == "gam" and self.known_gam(w, x, par):
-                    continue
                 ops.append(op_f(pre + w, [x] + par))
         # derivative triples in the bulk
         if "cdf" in xn and deriv:
@@ -245,7 +244,7 @@ class C10(Prop):
             for _ in range(3):
                 x = float(R.reference_all(fam, "p", [rng.uniform(0.05, 0.95)] + par)["invcdf"][0])
                 ops.append("f2 fn=%sinvcdf,%scdf a=%s" % (pre, pre, ",".join(dhex(v) for v in [x] + par)))
-        if fam in ("sxp", "gam") and par[0] == 0.0:          # known findings: bisection inverses need mu = 0 (see KNOWN)
+        if fam in ("sxp", "gam"):
             for p in [0.5, rng.random(), rng.choice([1e-6, 1e-3, 0.01, 0.1, 0.9, 0.99, 0.999999])]:
                 ops.append(op_f(pre + "invcdf", [p] + par))
         if samples and fam in ("exp", "gumbel", "gev", "wei"):
@@ -312,7 +311,8 @@ class C10(Prop):
         for x in xs:
             for w in ("pdf", "logpdf", "cdf", "logcdf", "surv", "logsurv"):
                 ops.append("mix fam=%s fn=%s x=%s %s" % (fam, w, dhex(x), args))
-        if fam == "hxp" and mp_["mu"][0] == 0.0:             # known findings: see KNOWN (mixgev inverse: never terminates / wrong)
+        ops.append("mixsample fam=%s seed=%d k=%d %s" % (fam, rng.choice([1, 42, rng.randrange(1, 2 ** 32)]), rng.choice([1, 4, 9]), args))
+        if True:
             for p in (0.5, rng.random(), rng.choice([1e-6, 1e-3, 0.01, 0.1, 0.9, 0.99, 0.9999])):
                 ops.append("mix fam=%s fn=invcdf x=%s %s" % (fam, dhex(p), args))
         return {"name": name, "ops": ops, "sticky": 0}
@@ -367,12 +367,13 @@ class C10(Prop):
                 ops = []
                 for x in (mu, nextafter(mu, 1), nextafter(mu, -1), mu - 1.0, mu + 2.0 ** -60):
                     for w in xn:
-                        if fam == "gam" and self.known_gam(w, x, [mu, lam] + shp):
-                            continue
                         ops.append(op_f(pre + w, [x, mu, lam] + shp))
                 out.append({"name": "bound-%s-%r-%r" % (fam, shp, mu), "ops": ops})
-        for key, ops in KNOWN:
-            out.append({"name": "known-" + key, "ops": ops, "known_key": key})
+        for key, ops in REGRESSION:
+            out.append({"name": "fixed-" + key, "ops": ops})
+        out.append({"name": "fixed-gev-log1p", "ops": [op_f("esl_gev_" + w, [x, 0.0, 1.0, al]) for al in (1e-12, -1e-12, 1.5e-12, 1e-10)
+                                                       for x in (-1.0, 1.0, -10.0, nextafter(-10.0, 1)) for w in ("cdf", "logcdf", "surv", "pdf")] +
+                    [op_f("esl_gev_invcdf", [p, 0.0, 1.0, al]) for al in (2e-12, -2e-12, 1e-10) for p in (0.5, 0.01, 0.99)]})
         return out
 
     def cases(self, ctx):
@@ -432,7 +433,7 @@ class C10(Prop):
                 if which == "invcdf":
                     xr, p = res[0], x
                     cen = mu0 if fam == "hxp" else 0.0
-                    d = 2.5e-6 * (abs(xr - cen) + 1e-9) + 4 * 2.0 ** -52 * abs(xr)
+                    d = 2.5e-6 * (abs(xr - cen) + 1e-9) + 4 * 2.0 ** -52 * max(abs(xr), abs(cen))
                     ok, lo, hi = R.quantile_ok(xr, p, lambda z: R.mix_reference(z, comps)["cdf"], d)
                     if not ok:
                         return Failure("monitor", "esl_%s_invcdf(p = %r) = %r but the mixture cdf there is in [%s, %s]; %s" % (
@@ -457,7 +458,7 @@ class C10(Prop):
                 fx = R.FAMILY[fam]
                 if which == "invcdf" and fam in ("sxp", "gam"):       # bisection to 1e-6
                     xr, p = res[0], a[0]
-                    d = 2.5e-6 * (abs(xr - a[1]) if fam == "sxp" else abs(xr)) + 4 * 2.0 ** -52 * abs(xr)
+                    d = 2.5e-6 * abs(xr - a[1]) + 4 * 2.0 ** -52 * max(abs(xr), abs(a[1]))
                     ok, lo, hi = R.quantile_ok(xr, p, lambda z: R.reference_all(fam, "x", [z] + a[1:])["cdf"], d, slack=4 * RELTOL[fam])
                     if not ok:
                         return Failure("monitor", "%s(p = %r; %r) = %r but the cdf there is in [%s, %s]" % (
@@ -508,8 +509,6 @@ class C10(Prop):
                     x = a[0]
                     scale = 1.0 / a[2]
                     tol = 1e-6 * (scale + abs(x - a[1]))
-                    if fam == "gev":
-                        tol += 4e-15 / abs(a[3] * a[2])     # (-log p)^-alpha - 1 and 1 + alpha*y are formed in binary64
                     if not (abs(r - x) <= tol):
                         return Failure("monitor", "%s(%s(x)) = %r for x = %r, parameters %r" % (g, f, r, x, a[1:]))
             elif kind == "unipos":
